@@ -1,9 +1,9 @@
-//! C14: the real bigWig writer driven through a recording / fault-injecting `Write + Seek` sink.
+//! C14: the real bigWig and bigBed writers driven through a recording / fault-injecting `Write + Seek` sink.
 //!
 //! case   = (kind opts sizes input queries cfg [autosql])
 //!          kind 0/1: bigWig single/two pass, opts/sizes/input/queries as in Model/EntryBBI.v
-//!          kind 10/11: bigBed single/two pass, input/queries as in Model/EntryBed.v, autosql () | ((bytes));
-//!          bigBed runs are judged by the oracle only (no trace model)
+//!          kind 10/11: bigBed single/two pass, input/queries as in Model/EntryBed.v, autosql () | ((bytes))
+//!          (trace model: Model/SinkTraceBed.v)
 //!          cfg = (threads inmemory nofault)
 //! output = (status trace runs prefixes torn faults)
 //!   status   (0) accepted | (1 code) refused | (2) panic
